@@ -24,6 +24,10 @@ package main
 //   packfiles.repack/remove, blobs.repack/repack_remove/remove, bytes.repack/repack_remove/
 //   remove/remove_total, derived from which packs really disappeared.
 //
+// "Index" means the logical index: the union of the index files with identical entries (same
+// blob, pack, offset, length) collapsed, which is how restic loads it (Index.merge); an
+// interrupted index rewrite leaves such identical entries and they are not stored copies.
+//
 // Not demanded: which copy of a duplicated blob prune keeps (size figures that depend on that
 // choice are only compared as sums); byte-exact sizes when blobs may be recompressed; anything
 // about a prune that refuses to run (counted as "prune_refused", e.g. index/pack size mismatch
@@ -81,7 +85,8 @@ type c10Pack struct {
 
 // c10Acct is the ground truth about one repository state relative to a used set.
 type c10Acct struct {
-	Entries                      int
+	Entries                      int // entries of the logical index (identical entries collapsed)
+	RawEntries                   int // entries over all index files, with multiplicity
 	UsedBlobs, DupBlobs, Unused  int
 	UsedDupBytes, UnusedBytes    uint64
 	UnrefPacks                   int
@@ -101,8 +106,19 @@ func c10Account(a *repokit.Audit, used map[restic.BlobHandle]struct{}) *c10Acct 
 		ac.packs[id] = &c10Pack{present: true, size: p.Size}
 		ac.PresentPacks++
 	}
+	// The logical index is the union of the index files with IDENTICAL entries (same blob, pack,
+	// offset, length) collapsed: restic merges index files that way when loading them
+	// (Index.merge), and such entries do not denote a second stored copy. a.Index is that view.
 	for _, f := range a.IdxFiles {
-		for _, e := range f.Entries {
+		ac.RawEntries += len(f.Entries)
+	}
+	var hs []restic.BlobHandle
+	for h := range a.Index {
+		hs = append(hs, h)
+	}
+	for _, h := range hs {
+		for _, l := range a.Index[h] {
+			e := repokit.IndexEntry{H: h, Loc: l}
 			ac.Entries++
 			ac.perHandle[e.H]++
 			ac.AllBytes += uint64(e.Length)
@@ -476,6 +492,8 @@ func c10Run(t *testing.T, rec *kit.Rec, idx int) {
 	sig := fmt.Sprintf("u%d/d%d/n%d/r%d/m%d/p%d-%d-%d/rep%d", ab.UsedBlobs, ab.DupBlobs, ab.Unused, ab.UnrefPacks, ab.MissingIndexed, ab.PackUsed, ab.PackPartly, ab.PackUn, goneUsed)
 	rec.CaseN("case/"+sig, nontrivial, 2)
 	rec.Count("histories", 1)
+	rec.Count("identical_index_entries_collapsed_before", int64(ab.RawEntries-ab.Entries))
+	rec.Count("identical_index_entries_left_after", int64(aa.RawEntries-aa.Entries))
 	rec.Count("blobs_unused_before", int64(ab.Unused))
 	rec.Count("blobs_duplicate_before", int64(ab.DupBlobs))
 	rec.Count("packs_unreferenced_before", int64(ab.UnrefPacks))
